@@ -216,6 +216,7 @@ type DiffOpts struct {
 	IgnoreOpt uint16   // option bits ignored at the root only
 	SkipRoot  []string // cfg fields skipped at the root only
 	Shallow   bool     // compare the root instance only: nested Stacks/Conditions by identity, not by their insides
+	Raw       bool     // also compare the raw-memory fingerprints of the configuration / log / condition records (any field, known or not)
 }
 
 // Diff returns "" when the two recursive snapshots describe exactly the same state,
@@ -240,6 +241,18 @@ func diff(a, b *Snap, o DiffOpts, path string, root bool) string {
 	}
 	if d != "" {
 		return path + "." + d
+	}
+	if o.Raw && !(root && (o.IgnoreOpt != 0 || len(o.SkipRoot) > 0)) && a.S.CfgAddr == b.S.CfgAddr {
+		// every named field agrees; the raw memory of the records must agree as well (a field this harness does not
+		// know about - one a later version adds - is still part of "its configuration")
+		switch {
+		case a.S.CfgRaw != b.S.CfgRaw:
+			return path + ": the raw memory of the configuration record changed although every field known to the harness is unchanged (hidden state)"
+		case a.S.LogRaw != b.S.LogRaw:
+			return path + ": the raw memory of the log record changed (hidden state)"
+		case a.S.CondRaw != b.S.CondRaw:
+			return path + ": the raw memory of the condition record changed (hidden state)"
+		}
 	}
 	if a.S.IsStack {
 		if a.S.HdrAddr != b.S.HdrAddr {
